@@ -492,6 +492,31 @@ def run_recorded(res, tier, seed):
             except Exception as e:
                 res.fail("recorded", "recorded-block-rejected-with-rival-head", "recorded real block %s is refused (%r) when a rival branch forking after height %d is the current head" % (names[k], e, j),
                          {"recorded": names[k], "rival_fork": j})
+    # ... and when a rival block was seen FIRST at some height j, so that the real blocks from j on arrive on a branch that is
+    # not the head and overtake it: every real block, including the later ones whose chain sample reaches back to height j,
+    # must still pass full validation (arrivals through add_block, in order)
+    for j in range(1, len(real) + 1):
+        cs3 = CoinState.zero()
+        ok = True
+        for x in real[:j - 1]:
+            cs3 = cs3.add_block(x, x.timestamp)
+        parent = cs3.block_by_hash[real[j - 2].hash()] if j > 1 else cs3.block_by_hash[g.hash()]
+        cb = R.RTx([(R.NULL32, 0, ("cb", parent.height + 1, b"first-seen rival %d" % j))], [(10 ** 9, bytes(64))])
+        rv = R.RBlock(parent.height + 1, parent.hash(), R.merkle_root([cb.id()]), parent.timestamp + 1, real[0].target, j, (R.NULL32,) * 3, [cb])
+        cs3 = cs3.add_block_no_validation(b.to_sk_block(rv))
+        for x in real[j - 1:]:
+            res.evaluations += 1
+            res.nontrivial("rival-first:%d:%d" % (j, x.height))
+            try:
+                cs3 = cs3.add_block(x, x.timestamp)
+            except Exception as e:
+                res.fail("recorded", "recorded-block-rejected-after-first-seen-rival", "a rival block was seen first at height %d; the recorded real block at height %d, arriving afterwards in order, is refused (%r)" % (j, x.height, e),
+                         {"recorded": names[x.height - 1] if x.height - 1 < len(names) else "?", "rival_first": j})
+                ok = False
+                break
+        if ok and j < len(real) and cs3.current_chain_hash != real[-1].hash():      # (a rival at the LAST height ties and, seen first, stays head)
+            res.fail("recorded", "real-chain-not-head-after-first-seen-rival", "a rival block was seen first at height %d; after all recorded real blocks arrived the head is not the last real block" % j,
+                     {"recorded": "head", "rival_first": j})
     res.exhaustive = True
     res.sample({"recorded_blocks": sorted(rb["blocks"]), "scrypt": "real (N=2^15, r=8, p=1)", "horizon": "lowered to -1 so that full validation runs",
                 "rival_heads": "every real block k validated with a fabricated longer branch forking at every j <= k as the current head"})
